@@ -88,7 +88,12 @@ def main():
         try:
             for p in props:
                 t0 = time.time()
+                # the evidence file must keep describing a run on the unchanged tree: save and restore it
+                evf = os.path.join(VERIF, 'evidence', f'{p}.json')
+                saved = open(evf).read() if os.path.exists(evf) else None
                 rc, out = sh(['./check', p, 'quick'], cwd=VERIF, timeout=3600)
+                if saved is not None:
+                    open(evf, 'w').write(saved)
                 line = next((l for l in out.split('\n') if l.startswith('VIOLATION')), None)
                 rep = None
                 if line:
